@@ -42,7 +42,9 @@ INSPECT_KIND = {
     inspect.Parameter.POSITIONAL_ONLY: "po", inspect.Parameter.POSITIONAL_OR_KEYWORD: "pk", inspect.Parameter.VAR_POSITIONAL: "va",
     inspect.Parameter.KEYWORD_ONLY: "ko", inspect.Parameter.VAR_KEYWORD: "vk",
 }
-CONTEXTS = ["module", "async", "method", "staticmethod", "classmethod", "nested", "inner-function-of-init"]
+CONTEXTS = ["module", "async", "method", "staticmethod", "classmethod", "nested", "inner-function-of-init",
+            # the module postpones the evaluation of annotations: a string literal inside an annotation is a value, not a forward reference (CPython reports "'T'")
+            "future", "future-method"]
 ANN = ["none", "all", "alternating", "string", "literal"]  # literal: Literal["r", "w"] and a nested one: the strings are values, not forward references
 DEFAULTS = ["0", "None", "x", "(1, 2)", "lambda q=1, /, *r: q", '"utf-8"', '"int"', 'lambda m="r", *, e="a-b": m']  # (string defaults are values, never annotations)
 RETURNS = [None, "int", '"R"', "list[int]", 'Literal["ok", "ko"]']
@@ -111,7 +113,7 @@ def render(params):
 
 
 def make_source(shape, ctx, ann, default, ret):
-    first = {"method": "self", "classmethod": "cls", "nested": "self"}.get(ctx)
+    first = {"method": "self", "classmethod": "cls", "nested": "self", "future-method": "self"}.get(ctx)
     params = build_params(shape, ann, default, first)
     sig = render(params)
     r = f" -> {ret}" if ret else ""
@@ -119,6 +121,12 @@ def make_source(shape, ctx, ann, default, ret):
     if ctx == "module":
         src = head + f"def f({sig}){r}:\n    pass\n"
         path = ("f",)
+    elif ctx == "future":
+        src = "from __future__ import annotations\n" + head + f"def f({sig}){r}:\n    pass\n"
+        path = ("f",)
+    elif ctx == "future-method":
+        src = '"""Doc."""\nfrom __future__ import annotations\n' + head + f"class C:\n    def f({sig}){r}:\n        pass\n"
+        path = ("C", "f")
     elif ctx == "async":
         src = head + f"async def f({sig}){r}:\n    pass\n"
         path = ("f",)
@@ -282,7 +290,7 @@ def _judge_params(acc, case, gparams, sig: inspect.Signature, argnodes, label):
             acc.violation(f"param/annotation-presence/{label}", f"annotation of {p.name}: Griffe {gann!r}, source {'has one' if ann_node is not None else 'has none'}", case)
         elif gann is not None:
             exp_node = ann_node
-            if isinstance(ann_node, ast.Constant) and isinstance(ann_node.value, str):
+            if isinstance(ann_node, ast.Constant) and isinstance(ann_node.value, str) and not label.startswith("future"):
                 exp_node = ast.parse(ann_node.value, mode="eval").body  # one level of unquoting (no postponed evaluation)
             try:
                 if _expr_dump(str(gann)) != _norm(exp_node):
@@ -344,7 +352,7 @@ def _run_P(griffe, acc, case):
         acc.violation(f"returns/presence/{ctx}", f"returns {fn.returns!r} vs source {r!r}", case)
     elif node.returns is not None:
         exp_node = node.returns
-        if isinstance(exp_node, ast.Constant) and isinstance(exp_node.value, str):
+        if isinstance(exp_node, ast.Constant) and isinstance(exp_node.value, str) and not ctx.startswith("future"):
             exp_node = ast.parse(exp_node.value, mode="eval").body
         if _expr_dump(str(fn.returns)) != _norm(exp_node):
             acc.violation(f"returns/expr/{ctx}", f"returns {str(fn.returns)!r} vs source {r!r}", case)
